@@ -658,6 +658,13 @@ func (r *Run) global(g *ssa.Global) *Object {
 	o := r.newObj(et, zeroValue(et), g.String())
 	o.born = nil
 	r.globals[g] = o
+	if g.String() == "crypto/rand.Reader" {
+		// the package's init is not run (it reaches into the operating system): Reader is the package's own reader,
+		// whose Read is the same source of arbitrary bytes as rand.Read (crypto.go)
+		if tn := pkg.Type("reader"); tn != nil {
+			o.val = &IfaceV{t: types.NewPointer(tn.Type()), v: &PtrV{obj: r.newObj(tn.Type(), zeroValue(tn.Type()), "rand.reader")}}
+		}
+	}
 	if !r.inited[pkg] {
 		r.inited[pkg] = true
 		if init := pkg.Func("init"); init != nil && !skipInit[pkg.Pkg.Path()] {
